@@ -1,6 +1,10 @@
 import MidnightZK.Model.C12.Par
 import MidnightZK.Proofs.C12.Booth
 import MidnightZK.Proofs.C12.Msm
+import MidnightZK.Proofs.C12.Poly
+import MidnightZK.Proofs.C12.Fft
+import MidnightZK.Model.C12.Curve
+import MidnightZK.Gen.C12Consts
 /-!
 # C12 — MSM, FFT and the evaluation-domain algebra equal their naive definitions
 Property theorems (helper lemmas live in `MidnightZK/Proofs`).
@@ -278,5 +282,162 @@ example : msmSpecific (fun cs bs => msmSerial cs bs (0 : Int)) [[0], [3], [0, 0]
   decide
 
 end
+
+/-! ## Polynomial helpers (`proofs/src/utils/arithmetic.rs`) over a commutative ring -/
+
+section
+variable {F : Type} [CommRing F]
+
+/-- The serial evaluator of `eval_polynomial` (`fold` from the top coefficient) is `Σ cᵢ·xⁱ`. -/
+theorem horner_spec (poly : List F) (x : F) :
+    horner poly x = ∑ i ∈ Finset.range poly.length, poly.getD i 0 * x ^ i :=
+  horner_eq_sum poly x
+
+/-- `eval_chunked_eq_horner`: for every positive thread count and every length, the chunked
+evaluation (`⌈n/t⌉`-sized chunks, each Horner-evaluated and multiplied by `x^(start)`, summed
+over `t` slots) equals the plain Horner evaluation. -/
+theorem eval_chunked_eq_horner (t : Nat) (ht : 0 < t) (poly : List F) (x : F) :
+    evalPolynomial t poly x = horner poly x := by
+  unfold evalPolynomial
+  simp only []
+  split
+  · rfl
+  · next hn =>
+    have hpos : 0 < poly.length := by omega
+    have hcs : 0 < (poly.length + t - 1) / t := Nat.div_pos (by omega) ht
+    rw [foldl_add_eq_sum, zero_add, List.sum_append]
+    have hz : (List.replicate (t - ((chunksOf ((poly.length + t - 1) / t) poly).zipIdx.map
+        (fun ci => horner ci.1 x * powN x (ci.2 * ((poly.length + t - 1) / t)))).length) (0 : F)).sum = 0 := by
+      simp
+    rw [hz, add_zero]
+    unfold chunksOf
+    have := chunk_sum _ hcs x poly.length poly 0 (le_refl _)
+    simpa using this
+
+example : evalPolynomial 3 [(1 : Int), 2, 3, 4, 5, 6, 7] 2 = horner [1, 2, 3, 4, 5, 6, 7] 2 := by decide
+
+/-- `kate_division_spec`: for a non-empty coefficient vector `a` and every `b`, `kate_division`
+returns `q` with `len q = len a − 1` and `a(X) = q(X)·(X − b) + a(b)` (as polynomial functions on
+every `x`); in particular the division is exact when `b` is a root. -/
+theorem kate_division_spec (a : List F) (b : F) (ha : a ≠ []) :
+    ∃ q, kateDivision a b = some q ∧ q.length = a.length - 1 ∧
+      ∀ x, horner a x = horner q x * (x - b) + horner a b := by
+  obtain ⟨c, t, rfl⟩ := List.exists_cons_of_ne_nil ha
+  unfold kateDivision
+  simp only [List.isEmpty_cons, Bool.false_eq_true, if_false, List.length_cons, Nat.add_sub_cancel]
+  have htake : (c :: t).reverse.take t.length = t.reverse := by
+    rw [List.reverse_cons]
+    exact List.take_left' (by simp)
+  rw [htake, List.foldl_reverse]
+  by_cases ht : t = []
+  · subst ht
+    refine ⟨[], by simp, by simp, ?_⟩
+    intro x; simp [horner_cons, horner_nil]
+  · have hf : t.foldr (fun r (st : List F × F) => ((r - st.2) :: st.1, (r - st.2) * -b)) ([], 0)
+        = ((synth b t).2 :: (synth b t).1, (synth b t).2 * -b) := kate_fold b t ht
+    refine ⟨(synth b t).2 :: (synth b t).1, ?_, ?_, ?_⟩
+    · show some (List.foldr (fun x (y : List F × F) => ((x - y.2) :: y.1, (x - y.2) * -b)) ([], 0) t).1 = _
+      rw [hf]
+    · have := synth_length b t
+      have hpos : 0 < t.length := List.length_pos_iff.mpr ht
+      simp only [List.length_cons]; omega
+    · intro x
+      have h1 := synth_spec b t x
+      have h2 := synth_rem b t
+      rw [horner_cons, horner_cons, horner_cons, h1, h2]
+      ring
+
+example : kateDivision [(-6 : Int), 11, -6, 1] 1 = some [6, -5, 1] := by decide
+
+end
+
+/-! ## FFT (`curves/src/fft.rs`) -/
+
+section
+variable {F : Type} [CommRing F]
+
+/-- The transform `best_fft` documents: the coefficient vector `a` is mapped to the evaluations of
+its polynomial at `ω⁰, ω¹, …, ω^(n-1)`. -/
+def dft (ω : F) (a : List F) : List F := (List.range a.length).map (fun i => horner a (ω ^ i))
+
+/-- `fft_recursive_eq_dft`: for every `k`, every vector of length `2^k` and every `ω` with
+`ω^(2^(k-1)) = −1` (a primitive `2^k`-th root of unity), `recursive_butterfly_arithmetic` run on
+the bit-reversed vector with the twiddle table `[1, ω, …, ω^(n/2−1)]` returns the DFT. -/
+theorem fft_recursive_eq_dft (k : Nat) (a : List F) (ω : F) (hlen : a.length = 2 ^ k)
+    (hω : 1 ≤ k → ω ^ (2 ^ (k - 1)) = -1) :
+    fftRec (twiddles ω (2 ^ k / 2) 1).toArray k 1 (bitrevList k a) = dft ω a := by
+  unfold dft
+  rw [hlen]
+  cases k with
+  | zero =>
+    match a, hlen with
+    | [c], _ => simp [fftRec, bitrevList, horner_cons, horner_nil]
+  | succ k =>
+    have h := fftRec_spec (twiddles ω (2 ^ (k + 1) / 2) 1).toArray ω (2 ^ (k + 1) / 2)
+      (fun m hm => by rw [twiddles_getD ω _ 1 m hm, one_mul])
+      (k + 1) 1 a (by norm_num) hlen
+      (by have : 2 ^ (k + 1) = 2 * 2 ^ k := by rw [pow_succ]; ring
+          omega)
+      (by intro hk; simpa using hω hk)
+    simpa using h
+
+/-- `best_fft` on more than `2^log2(threads)` points (the recursive path): it returns the DFT,
+provided the in-place swap loop realises the bit-reversal permutation (next theorem). -/
+theorem best_fft_recursive_eq_dft (t k : Nat) (a : List F) (ω : F) (hlen : a.length = 2 ^ k)
+    (hω : 1 ≤ k → ω ^ (2 ^ (k - 1)) = -1) (hpath : ¬ k ≤ t.log2)
+    (hperm : (bitrevPermute k a.toArray).toList = bitrevList k a) :
+    bestFft t a ω k = some (dft ω a) := by
+  unfold bestFft
+  simp only [hlen, ne_eq, not_true_eq_false, if_false, hpath, hperm]
+  rw [fft_recursive_eq_dft k a ω hlen hω]
+
+example : bestFft 1 [(1 : Int), 2, 3, 4] (-1) 2 = some [10, -2, 10, -2] := by decide
+
+end
+
+/-- The swap loop of `best_fft` (`if k < rk { a.swap(rk, k) }` with the shift-and-or `bitreverse`)
+is the even/odd recursive bit-reversal permutation — checked on the position vector
+`[0, …, 2^k − 1]` for every `k ≤ 10` by kernel evaluation (bounded statement: sizes above `2^10`
+are tied to the model by the correspondence run only). -/
+theorem bitrev_swap_eq_rec_upto_10 :
+    ∀ k ∈ List.range 11,
+      (bitrevPermute k (List.range (2 ^ k)).toArray).toList = bitrevList k (List.range (2 ^ k)) := by
+  decide +kernel
+
+/-! ## Constants the FFT / domain code reads (regenerated from the source on every run) -/
+
+open Gen in
+/-- The Montgomery limbs written in `fq.rs` for `ROOT_OF_UNITY`, `ROOT_OF_UNITY_INV`, `TWO_INV`,
+`ZETA` are the Montgomery forms (`·2^256 mod r`) of the values the model uses. -/
+theorem fr_constants_montgomery :
+    rootOfUnity * 2 ^ 256 % frModulus = rootOfUnityMont ∧
+    rootOfUnityInv * 2 ^ 256 % frModulus = rootOfUnityInvMont ∧
+    twoInv * 2 ^ 256 % frModulus = twoInvMont ∧
+    zeta * 2 ^ 256 % frModulus = zetaMont ∧
+    rootOfUnity < frModulus ∧ rootOfUnityInv < frModulus ∧ twoInv < frModulus ∧ zeta < frModulus := by
+  decide +kernel
+
+open Gen in
+/-- `ROOT_OF_UNITY` has order exactly `2^S` (`ω^(2^(S-1)) = −1`), `ROOT_OF_UNITY_INV` and
+`TWO_INV` are the inverses they claim to be, `ZETA` is a primitive cube root of unity, and
+`2^S` divides `r − 1`: every `omega` derived in `EvaluationDomain::new` / `g_to_lagrange` by
+repeated squaring is a primitive `2^k`-th root of unity. -/
+theorem fr_root_of_unity_primitive :
+    powMod rootOfUnity (2 ^ (frS - 1)) frModulus = frModulus - 1 ∧
+    powMod rootOfUnity (2 ^ frS) frModulus = 1 ∧
+    rootOfUnity * rootOfUnityInv % frModulus = 1 ∧
+    2 * twoInv % frModulus = 1 ∧
+    powMod zeta 3 frModulus = 1 ∧ zeta ≠ 1 ∧
+    (frModulus - 1) % 2 ^ frS = 0 ∧ frNumBits = frModulus.log2 + 1 := by
+  decide +kernel
+
+/-- The curve constants of the driver's reference arithmetic: the moduli are the ones parsed from
+the source, the generator is on the curve and has order `r` (`[r]G = O`, `G ≠ O`). -/
+theorem driver_curve_constants :
+    bls12381G1.p = Gen.fpModulus ∧ bls12381G1.r = Gen.frModulus ∧
+    onCurve bls12381G1 bls12381G1.gx bls12381G1.gy = true ∧
+    (bls12381G1.mulGen bls12381G1.r).z = 0 ∧ (bls12381G1.mulGen 1).z ≠ 0 ∧
+    onCurve bn256G1 bn256G1.gx bn256G1.gy = true ∧ (bn256G1.mulGen bn256G1.r).z = 0 := by
+  decide +kernel
 
 end MidnightZK.C12
